@@ -111,3 +111,12 @@ claimed["C17"] = (
     "Outside the claim: real HTTP parsing, the WebSocket / WebTransport handshakes (ProtoMajor 3), JSONP, 10^5..10^6 generated ids (replaced by the symbolic distinctness argument); the error code in the body is read from the value "
     "handed to json.Marshal (stubbed) in the executor and from the real JSON body in native replay.",
     "5 (C17)")
+
+claimed["C06"] = (
+    "Bounded model checking of the close paths on a server built from the real stores, namespaces, adapters and packet queue (transport and encoder are recording stand-ins): (1) a connected socket receives TWO "
+    "termination causes concurrently - every pair of {transport close, client DISCONNECT, server namespace disconnect, server connection close, server shutdown} - under all interleavings at synchronisation points "
+    "(preemption bound 1 quick / 2 thorough): its disconnect handler runs exactly once with the reason of a cause that occurred; afterwards the namespace's socket list, the connection's socket list and every room "
+    "have forgotten it, it is disconnected, no mutex is left held; (2) the connection dies at any point while a CONNECT is being admitted through a (yielding) namespace middleware: afterwards the namespace lists no "
+    "socket of the dead connection and no room keeps its id. Counterexample schedules are replayed natively through instrumented copies of the package's files.",
+    "Outside the claim: cutting the TCP stream at byte k, real ping timers, the Engine.IO-level close paths and session-id lookup (C17 covers 'closed sid => error 1'), upgrades in flight, connection state recovery on close.",
+    "5 (C06)")
